@@ -263,6 +263,21 @@ func emitDataset(out *Out, r *Rng, hs HSpec) {
 				}
 			}
 		}
+		// the wrapper without a hasher argument is the same function under the default hasher
+		if hs.Name == "poseidon" {
+			if es2, e2 := merklize.EntriesFromRDF(ds); e2 != nil || len(es2) != len(ents) {
+				why = append(why, fmt.Sprintf("EntriesFromRDF gives %d entries (%v), EntriesFromRDFWithHasher with the default hasher %d", len(es2), e2, len(ents)))
+			} else {
+				for i := range es2 {
+					k1, v1, _ := es2[i].KeyValueMtEntries()
+					k2, v2, _ := ents[i].KeyValueMtEntries()
+					if k1 == nil || k2 == nil || v1 == nil || v2 == nil || k1.Cmp(k2) != 0 || v1.Cmp(v2) != 0 {
+						why = append(why, fmt.Sprintf("entry %d of EntriesFromRDF hashes differently from EntriesFromRDFWithHasher with the default hasher", i))
+						break
+					}
+				}
+			}
+		}
 		// a subject referenced from two places must have been rejected
 		if s := multiReferenced(ds); s != "" {
 			why = append(why, "subject "+s+" is the object of two quads of its graph but the dataset was accepted")
